@@ -1,1 +1,25 @@
-// harnesses for automerge/src/lib.rs
+// Crate-root helpers shared by the harness files (child module of the automerge crate root).
+
+
+/// Over-approximating stub for alloc::fmt::format: error paths build messages nobody inspects.
+#[allow(dead_code)]
+pub(crate) fn stub_format(_args: std::fmt::Arguments<'_>) -> String {
+    String::new()
+}
+
+/// Seed for the few deliberately concretised constants (actor bytes, distinguishing hash bytes).
+#[allow(dead_code)]
+pub(crate) const fn seed() -> u64 {
+    let s = env!("AUTOMERGE_VERIF_SEED").as_bytes();
+    let mut v: u64 = 0;
+    let mut i = 0;
+    while i < s.len() {
+        if s[i] >= b'0' && s[i] <= b'9' {
+            v = v.wrapping_mul(10).wrapping_add((s[i] - b'0') as u64);
+        }
+        i += 1;
+    }
+    v
+}
+#[allow(dead_code)]
+pub(crate) const SEED: u64 = seed();
